@@ -13,7 +13,8 @@
 (*   op.start                                                              *)
 (*   cached.map.get / cached.map.insert                                    *)
 (*   cached.stream.entry / .occupied / .vacant / .fill,  user.yield         *)
-(*   replace.sort.load_flag / .store_index / .store_flag, replace.read_index *)
+(*   replace.sort.load_flag / .store_index / .store_flag,                   *)
+(*   replace.read_index, replace.index.locked (inside the index mutex)      *)
 (* Clone of the ReplaceSource has no point of its own: it copies the index  *)
 (* and then the flag while it still holds the index mutex (the guard is a   *)
 (* temporary of the struct expression), and the sorter stores the index     *)
@@ -52,10 +53,11 @@ VARIABLES prog,      \* the program being run
           nextId,    \* fresh identities
           tmp,       \* thread -> scratch (value computed / borrowed / loaded)
           flag, idx, \* object -> lazy-sort state; objects: -1 (the shared one) and t (the clone of thread t)
+          ilock,     \* object -> thread that holds the mutex of the sorted index, or -1
           hist,      \* schedule so far: sequence of thread ids
           bad        \* set of violated monitor names
 
-vars == <<prog, pc, opi, cache, lock, nextId, tmp, flag, idx, hist, bad>>
+vars == <<prog, pc, opi, cache, lock, nextId, tmp, flag, idx, ilock, hist, bad>>
 
 Objects == {-1} \cup Threads
 
@@ -69,6 +71,7 @@ Init ==
   /\ tmp = [t \in Threads |-> 0]
   /\ flag = [o \in Objects |-> FALSE]
   /\ idx = [o \in Objects |-> "stale"]
+  /\ ilock = [o \in Objects |-> -1]
   /\ hist = <<>>
   /\ bad = {}
 
@@ -100,12 +103,14 @@ Release(t) ==
   /\ CASE p = "idle" ->
             /\ HasOp(t)
             /\ IF op.k = "rclone"
-                 THEN \* Clone: index and flag copied in one step (see above)
+                 THEN \* Clone: index and flag copied in one step (see above), under
+                      \* the index mutex: it waits for a reader that holds it
+                      /\ ilock[-1] = -1
                       /\ flag' = [flag EXCEPT ![t] = flag[-1]]
                       /\ idx' = [idx EXCEPT ![t] = idx[-1]]
                       /\ Finish(t)
                  ELSE Goto(t, FirstPoint(op)) /\ UNCHANGED <<flag, idx>>
-            /\ UNCHANGED <<cache, lock, nextId, tmp, bad>>
+            /\ UNCHANGED <<cache, lock, nextId, tmp, bad, ilock>>
        \* ---- CachedSource::map
        [] p = "cached.map.get" ->
             /\ lock[ShardOf[op.key]] = -1          \* get() needs the shard
@@ -114,60 +119,68 @@ Release(t) ==
                  ELSE /\ Goto(t, "cached.map.insert")
                       /\ tmp' = [tmp EXCEPT ![t] = nextId]     \* inner.map()
                       /\ nextId' = nextId + 1
-            /\ UNCHANGED <<cache, lock, flag, idx, bad>>
+            /\ UNCHANGED <<cache, lock, flag, idx, bad, ilock>>
        [] p = "cached.map.insert" ->
             /\ lock[ShardOf[op.key]] = -1
             /\ cache' = [cache EXCEPT ![op.key] =
                            IF @ = 0 \/ InsertOverwrites THEN tmp[t] ELSE @]
             /\ Finish(t)
-            /\ UNCHANGED <<lock, nextId, tmp, flag, idx, bad>>
+            /\ UNCHANGED <<lock, nextId, tmp, flag, idx, bad, ilock>>
        \* ---- CachedSource::stream_chunks
        [] p = "cached.stream.entry" ->
             /\ lock[ShardOf[op.key]] = -1
             /\ lock' = [lock EXCEPT ![ShardOf[op.key]] = t]
             /\ Goto(t, IF cache[op.key] # 0 THEN "cached.stream.occupied"
                        ELSE "cached.stream.vacant")
-            /\ UNCHANGED <<cache, nextId, tmp, flag, idx, bad>>
+            /\ UNCHANGED <<cache, nextId, tmp, flag, idx, bad, ilock>>
        [] p = "cached.stream.occupied" ->
             \* replay from the stored map, then the guard is dropped
             /\ lock' = [lock EXCEPT ![ShardOf[op.key]] = -1]
             /\ IF op.k = "pstream"
                  THEN Goto(t, "user.yield") /\ tmp' = [tmp EXCEPT ![t] = cache[op.key]]
                  ELSE Finish(t) /\ UNCHANGED tmp
-            /\ UNCHANGED <<cache, nextId, flag, idx, bad>>
+            /\ UNCHANGED <<cache, nextId, flag, idx, bad, ilock>>
        [] p = "cached.stream.vacant" ->
             /\ Goto(t, "cached.stream.fill")
             /\ tmp' = [tmp EXCEPT ![t] = nextId]               \* inner stream
             /\ nextId' = nextId + 1
-            /\ UNCHANGED <<cache, lock, flag, idx, bad>>
+            /\ UNCHANGED <<cache, lock, flag, idx, bad, ilock>>
        [] p = "cached.stream.fill" ->
             /\ cache' = [cache EXCEPT ![op.key] = tmp[t]]
             /\ lock' = [lock EXCEPT ![ShardOf[op.key]] = -1]
             /\ IF op.k = "pstream"
                  THEN Goto(t, "user.yield") /\ tmp' = [tmp EXCEPT ![t] = -1]  \* nothing borrowed
                  ELSE Finish(t) /\ UNCHANGED tmp
-            /\ UNCHANGED <<nextId, flag, idx, bad>>
+            /\ UNCHANGED <<nextId, flag, idx, bad, ilock>>
        [] p = "user.yield" ->
             \* the parent still uses what it borrowed from the stored map
             /\ bad' = IF tmp[t] = -1 \/ cache[op.key] = tmp[t] THEN bad
                       ELSE bad \cup {"BorrowsLive"}
             /\ Finish(t)
-            /\ UNCHANGED <<cache, lock, nextId, tmp, flag, idx>>
+            /\ UNCHANGED <<cache, lock, nextId, tmp, flag, idx, ilock>>
        \* ---- ReplaceSource lazy sort
        [] p = "replace.sort.load_flag" ->
             /\ Goto(t, IF flag[SortObj(t)] THEN "replace.read_index"
                        ELSE "replace.sort.store_index")
-            /\ UNCHANGED <<cache, lock, nextId, tmp, flag, idx, bad>>
+            /\ UNCHANGED <<cache, lock, nextId, tmp, flag, idx, bad, ilock>>
        [] p = "replace.sort.store_index" ->
+            /\ ilock[SortObj(t)] = -1                      \* stored under the index mutex
             /\ idx' = [idx EXCEPT ![SortObj(t)] = "fresh"]
             /\ Goto(t, "replace.sort.store_flag")
-            /\ UNCHANGED <<cache, lock, nextId, tmp, flag, bad>>
+            /\ UNCHANGED <<cache, lock, nextId, tmp, flag, bad, ilock>>
        [] p = "replace.sort.store_flag" ->
             /\ flag' = [flag EXCEPT ![SortObj(t)] = TRUE]
             /\ Goto(t, "replace.read_index")
-            /\ UNCHANGED <<cache, lock, nextId, tmp, idx, bad>>
+            /\ UNCHANGED <<cache, lock, nextId, tmp, idx, bad, ilock>>
        [] p = "replace.read_index" ->
+            \* takes the index mutex and keeps it while it collects the references
+            /\ ilock[SortObj(t)] = -1
+            /\ ilock' = [ilock EXCEPT ![SortObj(t)] = t]
+            /\ Goto(t, "replace.index.locked")
+            /\ UNCHANGED <<cache, lock, nextId, tmp, flag, idx, bad>>
+       [] p = "replace.index.locked" ->
             /\ bad' = IF idx[SortObj(t)] = "fresh" THEN bad ELSE bad \cup {"ReadsFresh"}
+            /\ ilock' = [ilock EXCEPT ![SortObj(t)] = -1]
             /\ Finish(t)
             /\ UNCHANGED <<cache, lock, nextId, tmp, flag, idx>>
 
@@ -190,7 +203,7 @@ Termination == <>AllDone
 
 (* the schedule so far is history, not behaviour: hidden from the state     *)
 (* graph when model checking                                                *)
-ViewNoHist == <<prog, pc, opi, cache, lock, nextId, tmp, flag, idx, bad>>
+ViewNoHist == <<prog, pc, opi, cache, lock, nextId, tmp, flag, idx, ilock, bad>>
 
 (* generation of schedules: every terminal behaviour is one schedule        *)
 EmitSchedule ==
